@@ -62,6 +62,11 @@ CHECKS = {
    text="9311 generated archives quick / 132k thorough (all 5120 single-member shapes over method x size x descriptor variant x ZIP64 extra x extra field x name x comment; 2-3 (thorough 4) member products over a covering alphabet x archive-level features: EOCD comment, ZIP64 end records, directory order, gaps) and everything 7 relic writer operations make from the in-scope ones, fed back once more (100k states quick, 650k thorough). For every archive both reference readers accept: zipslicer.Read and the single-pass ZipToTar/ReadZipTar path must report the same members, offsets, sizes, CRCs and contents; GetTotalSize must tile the file; WriteDirectory/GetOriginalDirectory must reproduce the original directory and end records; archives relic writes must be accepted by both references and re-read identically.",
    note="Trusted: gen/zipgen (layout map cross-checked each run), Go archive/zip, Python zipfile (their agreement defines 'valid'). 19 deviation classes are listed in KNOWN_FINDINGS.txt (explicit refusals of valid shapes; four silent-corruption classes in the writer); two announced defects were repaired. Not covered: sizes at the 4 GiB thresholds, stub/prefix data, multi-disk fields.",
    ref="4/C17"),
+ "C14": dict(level="model_checking", engine="E1 cooperative scheduler (mc.Sched) on the real server + free-running race-detector pass + loopback daemon shutdown",
+   technique="stateless exhaustive exploration of all interleavings up to a preemption bound of 2-3 request threads on one real server under a cooperative scheduler, each response judged against the same request in isolation; plus a separate free-running race-detector pass and a shutdown check on a real loopback daemon",
+   text="8 scenarios (thorough 10) of 2-3 threads - two keys, same key (cache contention), alias vs direct, sign vs list/key-info, sign vs health check + /health, key-cache expiry between signs, Close during a health check, three signers - explored over every hooked mutex, scripted-token, clock and audit-file operation with <=2 preemptions (thorough 3 for two threads): 4.8k schedules quick. Oracle: the patch returned to each request applied to THAT request's body verifies and names its key, digest and description; listings/key info equal the isolated answer; audit lines = successful signs; no deadlock. (b) the same bodies run free under -race against one server (separate binary); (c) daemon.Close released while a /sign request is blocked at the token's getkey/sign on a real loopback daemon: the request must finish with a valid signature and Close must wait.",
+   note="Trusted: mc.Sched + vsync/vtime/vos shims (sequentially consistent model), scripted token, httptest. net/http's own goroutines and goroutines relic starts itself (pipe feeders) are not scheduled. The data-race clause rests on the race detector over free-running runs, which is not exhaustive. Concurrent double Server.Close is not required by the statement (the daemon calls it once) and is not explored.",
+   ref="4/C14"),
 }
 NOT_YET = {}
 ALL = ["C%02d" % i for i in range(1, 21)]
